@@ -246,6 +246,8 @@ def check_clique_vector(ctx):
                 continue        # nothing is taken from self/other in this expression
             if not subs and not isinstance(comp, ast.DictComp) and not iter_params:
                 continue
+            if not subs and not isinstance(comp, ast.DictComp) and isinstance(g.target, ast.Name) and U(body[0]) == g.target.id:
+                continue        # a search over the keys themselves (e.g. the argument of next(...)): nothing is paired
             n += 1
             it = U(g.iter)
             if isinstance(g.target, ast.Name) and it in ('self', 'self.keys()'):
